@@ -389,7 +389,7 @@ def seq_access(eng, seq, st, node):
             # python iterates by index over the live list
             v = eng.list_get(s, seq, idx)
             if is_ref_kind(v.k):
-                s.assume(z3.And(v.t >= 0, v.t < s.heap.alloc))
+                s.assume(z3.And(v.t >= 0, v.t < s.heap.bound('el:ref')))
             return v
         return get, n
     if isinstance(k, tuple) and k[0] == 'pylist':
@@ -449,7 +449,7 @@ def check_inv(eng, st, lc, ordn, phase, node, extra_env=None):
     f = eng.frame
     for label, clause in f.contract.labelled(lc.get('inv', []), 'inv'):
         t = eval_bool(eng, clause, env, st, old=(f.entry_env, f.entry_heap))
-        eng.oblige(st, "loop%d:%s:%s" % (ordn, label, phase), 'inv:' + phase, t, node, hints=lc.get('hints', ()))
+        eng.oblige(st, "loop%s:%s:%s" % (ordn, label, phase), 'inv:' + phase, t, node, hints=lc.get('hints', ()))
 
 
 def assume_inv(eng, st, lc, extra_env=None):
@@ -472,7 +472,7 @@ def run_loop(eng, node, st, ordn, lc, idxname, d, guard_fn, bind_fn, step_fn, gh
     # 1. invariant holds on entry (optional proof steps first)
     for label, clause in f.contract.labelled(lc.get('lemmas_init', []), 'initstep'):
         t = eval_bool(eng, clause, st.env, st, old=(f.entry_env, f.entry_heap))
-        eng.oblige(st, "loop%d:%s" % (ordn, label), 'assert', t, node)
+        eng.oblige(st, "loop%s:%s" % (ordn, label), 'assert', t, node)
         st.assume(t)
     check_inv(eng, st, lc, ordn, 'init', node)
     entry_alloc = st.heap.alloc
@@ -486,12 +486,14 @@ def run_loop(eng, node, st, ordn, lc, idxname, d, guard_fn, bind_fn, step_fn, gh
     names = assigned_names(node.body) | set((lc.get('ghost') or {}).keys())
     if idxname:
         names.add(idxname)
-    havoc_names(eng, head, names)
-    for m in mods:
-        calls.havoc_target(eng, head, m)
     na = z3.Int(fresh_name('alloc'))
     head.assume(na >= head.heap.alloc)
     head.heap.new_epoch(na)
+    havoc_names(eng, head, names)
+    if idxname and idxname.startswith('_k'):
+        head.env['_k'] = head.env[idxname]      # `_k` is the contract-visible alias of the hidden index
+    for m in mods:
+        calls.havoc_target(eng, head, m)
     if d is not None and d.kind in ('range', 'seq'):
         idx = head.env[idxname].t
         if d.step > 0:
@@ -509,10 +511,10 @@ def run_loop(eng, node, st, ordn, lc, idxname, d, guard_fn, bind_fn, step_fn, gh
     ex = head.copy()
     g = guard_fn(ex)
     ex.assume(z3.Not(g))
-    ex.trail.append("loop%d:exit" % ordn)
+    ex.trail.append("loop%s:exit" % ordn)
     for label, clause in f.contract.labelled(lc.get('lemmas_exit', []), 'exitstep'):
         t = eval_bool(eng, clause, ex.env, ex, old=(f.entry_env, f.entry_heap))
-        eng.oblige(ex, "loop%d:%s" % (ordn, label), 'assert', t, node)
+        eng.oblige(ex, "loop%s:%s" % (ordn, label), 'assert', t, node)
         ex.assume(t)
     # 4. body branch
     body = head
@@ -520,11 +522,11 @@ def run_loop(eng, node, st, ordn, lc, idxname, d, guard_fn, bind_fn, step_fn, gh
     outs_pre = []
     flush_raises(eng, body, outs_pre)
     body.assume(gb)
-    body.trail.append("loop%d:body" % ordn)
+    body.trail.append("loop%s:body" % ordn)
     bind_fn(body)
     for gname, init in (lc.get('body_ghost') or {}).items():
         body.env[gname] = eval_clause(eng, init, body.env, body, old=(f.entry_env, f.entry_heap))
-    eng.oblige(body, "loop%d:cover:body" % ordn, 'cover', z3.BoolVal(False), node, expect_sat=True)
+    eng.oblige(body, "loop%s:cover:body" % ordn, 'cover', z3.BoolVal(False), node, expect_sat=True)
     dec0 = None
     if lc.get('decreases'):
         dec0 = to_int(eval_clause(eng, lc['decreases'], body.env, body, old=(f.entry_env, f.entry_heap)))
@@ -542,7 +544,7 @@ def run_loop(eng, node, st, ordn, lc, idxname, d, guard_fn, bind_fn, step_fn, gh
             # intermediate proof steps: each is an obligation of its own, then available as a hypothesis
             for label, clause in f.contract.labelled(lc.get('lemmas_end', []), 'step'):
                 t = eval_bool(eng, clause, s.env, s, old=(f.entry_env, f.entry_heap))
-                eng.oblige(s, "loop%d:%s" % (ordn, label), 'assert', t, node)
+                eng.oblige(s, "loop%s:%s" % (ordn, label), 'assert', t, node)
                 s.assume(t)
             for gname, upd in (lc.get('ghost_update') or {}).items():
                 s.env[gname] = eval_clause(eng, upd, s.env, s, old=(f.entry_env, f.entry_heap))
@@ -550,9 +552,9 @@ def run_loop(eng, node, st, ordn, lc, idxname, d, guard_fn, bind_fn, step_fn, gh
             check_inv(eng, s, lc, ordn, 'preserved', node)
             if dec0 is not None:
                 dec1 = to_int(eval_clause(eng, lc['decreases'], s.env, s, old=(f.entry_env, f.entry_heap)))
-                eng.oblige(s, "loop%d:term" % ordn, 'term', z3.And(dec0 >= 0, dec1 < dec0), node)
+                eng.oblige(s, "loop%s:term" % ordn, 'term', z3.And(dec0 >= 0, dec1 < dec0), node)
         elif o[0] == 'break':
-            s.trail.append("loop%d:break" % ordn)
+            s.trail.append("loop%s:break" % ordn)
             for gname, upd in (lc.get('ghost_break') or {}).items():
                 s.env[gname] = eval_clause(eng, upd, s.env, s, old=(f.entry_env, f.entry_heap))
             outs.append((NORMAL, s))
